@@ -9,7 +9,7 @@ JSON value specs so that the same values can be put into different containers.
 D (direct_check) uses an independent, history-based statement of the rule (spec_run below);
 C (coq_term) replays every recorded _validate_X invocation and every user-level verdict and the two
 attributes after every call through the model (Validate.chk_history)."""
-import copy, hashlib, json
+import copy, hashlib, json, os, traceback
 import numpy as np
 import pandas as pd
 from menelaus.change_detection import ADWIN, CUSUM, PageHinkley
@@ -342,7 +342,7 @@ def play(name, calls, seed):
         pre = last
         rec.invs, rec.user_obj = [], x
         np.random.seed((seed * 1009 + n_acc) % (2 ** 31))
-        exc, msg = None, ""
+        exc, msg, where = None, "", None
         try:
             if DETS[name]["fam"] == "sy":
                 det.update(yt, yp)
@@ -352,11 +352,13 @@ def play(name, calls, seed):
                 det.update(x)
         except Exception as e:
             exc, msg = type(e).__name__, str(e)[:120]
+            fr = traceback.extract_tb(e.__traceback__)[-1]
+            where = [os.path.basename(fr.filename), fr.name]
         if exc is None:
             n_acc += 1
         last = snapshot(det)
         ref = getattr(det, "reference", None)
-        out.append({"acc": exc is None, "exc": exc, "msg": msg, "invs": rec.invs if rec.ok else None,
+        out.append({"acc": exc is None, "exc": exc, "msg": msg, "where": where, "invs": rec.invs if rec.ok else None,
                     "attrs": vattrs(det), "pre": pre, "snap": last,
                     "refw": int(ref.shape[1]) if isinstance(ref, pd.DataFrame) else None,
                     "x": None if x is None else desc(x),
@@ -365,6 +367,34 @@ def play(name, calls, seed):
 
 
 _CACHE = {}
+RUNTIME = {"injected_with_reset_pending": {}, "refused_calls": 0, "twin_snapshots_compared": 0,
+           "plan_snapshots_compared": 0, "descriptor_kinds": {}, "internal_invocations": 0}
+
+
+def _note(case, obs):
+    try:
+        for r in obs["main"]:
+            for u, d, o in (r["invs"] or []):
+                if d:
+                    RUNTIME["descriptor_kinds"][d[0]] = RUNTIME["descriptor_kinds"].get(d[0], 0) + 1
+                if not u:
+                    RUNTIME["internal_invocations"] += 1
+        if case["mode"] == "inject":
+            r = obs["main"][case["inj"]["pos"]]
+            if not r["acc"]:
+                RUNTIME["refused_calls"] += 1
+                if r["pre"]["ds"] == "drift":
+                    k = case["det"]
+                    RUNTIME["injected_with_reset_pending"][k] = RUNTIME["injected_with_reset_pending"].get(k, 0) + 1
+            RUNTIME["twin_snapshots_compared"] += sum(1 for t in obs["twin"] if t["acc"])
+        else:
+            RUNTIME["plan_snapshots_compared"] += sum(1 for t in obs["alt"] if t["acc"])
+    except Exception:
+        pass
+
+
+def extra(ctx):
+    return {"c14_runtime": RUNTIME}
 
 
 def play_cached(name, calls, seed):
@@ -425,9 +455,16 @@ def first_deviation(name, calls, recs):
     return None, None
 
 
+def refused_by_validation(r):
+    """ValueError raised by the base-class validators (detector.py) or directly by a guard in the detector's own
+    update()/set_reference(); anything raised deeper (numpy, sklearn, helper methods) comes from the body"""
+    return r["exc"] == "ValueError" and r["where"] is not None and \
+        (r["where"][0] == "detector.py" or r["where"][1] in ("update", "set_reference"))
+
+
 def passed_validation(name, r):
-    """the user's X went through _validate_X (and there is no guard behind it that could still refuse it)"""
-    return DETS[name]["kind"] != "KStreamUni" and any(u and o[0] == "ret" for u, d, o in (r["invs"] or []))
+    """the call got past validation although it did not return normally"""
+    return not r["acc"] and not refused_by_validation(r)
 
 
 def short(c):
@@ -454,6 +491,7 @@ def direct_check(case, obs):
         return msgs[:4]
     name = case["det"]
     msgs = []
+    _note(case, obs)
     calls, main = full_calls(case), obs["main"]
     i, m = first_deviation(name, calls, main)
     if m:
@@ -470,8 +508,9 @@ def direct_check(case, obs):
                 d = snap_diff(r["pre"], r["snap"])
                 if d:
                     msgs.append(f"the refused call {pos} changed the detector although no reset was pending: {d}")
-                elif pos > 0 and main[pos - 1]["attrs"] is not None and r["attrs"] != main[pos - 1]["attrs"]:
-                    msgs.append(f"the refused call {pos} changed _input_cols/_input_col_dim: {main[pos - 1]['attrs']} -> {r['attrs']}")
+            before = main[pos - 1]["attrs"] if pos > 0 else [None, None]
+            if r["attrs"] is not None and before is not None and r["attrs"] != before:
+                msgs.append(f"the refused call {pos} changed _input_cols/_input_col_dim: {before} -> {r['attrs']}")
             if r["pre"]["tot"] is not None and r["snap"]["tot"] is not None and r["pre"]["ds"] != "drift" \
                     and r["snap"]["tot"] != r["pre"]["tot"]:
                 msgs.append(f"the refused call {pos} was counted: total {r['pre']['tot']} -> {r['snap']['tot']}")
@@ -571,7 +610,7 @@ def call_term(name, r):
         if any(d is None for _, d, _ in r["invs"]):
             return None
         invs = [inv_term(i) for i in r["invs"]]
-    passed = r["acc"] or r["exc"] != "ValueError"     # an exception of another type comes from the body, after validation
+    passed = r["acc"] or not refused_by_validation(r)   # other exceptions come from the body, after validation
     known = r["attrs"] is not None
     cols = "None" if not known or r["attrs"][0] is None else f"(Some {G.zlist(r['attrs'][0])})"
     dim = "None" if not known else G.optz(r["attrs"][1])
@@ -819,7 +858,8 @@ def gen_cases(ctx):
     n_hist = ctx.scale(1, 4)
     for name, info in DETS.items():
         fam = info["fam"]
-        dims = [1] if is_uni(name) or fam == "sy" else (ctx.scale([2], [1, 2, 3]))
+        dims = [1] if is_uni(name) or fam == "sy" else \
+            ctx.scale([1, 2] if name in ("HDDDM2", "NNDVI") else [2], [1, 2, 3])
         for d in dims:
             for hno in range(n_hist):
                 seed = rng.randrange(1, 10 ** 6)
@@ -893,15 +933,25 @@ def gen_cases(ctx):
           {"c": "np", "v": [[1, 1], [0, 0]], "dt": "i"}, {"c": "empty", "shape": [3, 0]}]
     for name in ("DDM", "ADWIN", "KdqTreeBatch", "HDDDM2", "NNDVI"):
         cases.append({"mode": "ypure", "det": name, "ys": ys})
-    # cases able to show a recorded finding go last (core reports the first few direct failures only)
-    order = {"": 0, "fb": 1, "fa": 2, "fc": 2}
+    # cases able to show a recorded finding go last (core shrinks and reports the first few direct failures
+    # only), interleaved by family so that the first reported ones are of different families
     pats = [pattern(c) for c in cases]
     for p in pats:
         bump("pattern", p or "none")
     for c in cases:
         bump("by_detector", c["det"])
-    idx = sorted(range(len(cases)), key=lambda i: (order.get(pats[i], 3 if "s12" in pats[i] else 2), i))
-    return [cases[i] for i in idx]
+    head = [c for c, p in zip(cases, pats) if not p]
+    fams = {}
+    for c, p in zip(cases, pats):
+        if p:
+            fams.setdefault("s12" if "s12" in p else p, []).append(c)
+    tail, k = [], 0
+    keys = sorted(fams, key=lambda f: {"s12": 0, "fc": 1, "fa": 2, "fb": 3}.get(f, 4))
+    while any(fams.values()):
+        for f in keys:
+            if fams[f]:
+                tail.append(fams[f].pop(0))
+    return head + tail
 
 
 def shrink_candidates(case):
